@@ -123,8 +123,14 @@ fn seg_tokens(line: &str) -> Value {
     Value::Array(out)
 }
 
-fn rerender(line: &str) -> Value {
-    let args = vec!["script".to_string()];
+fn rerender(line: &str, case: &Value) -> Value {
+    let mut args = vec!["script".to_string()];
+    if let Some(a) = case.get("args").and_then(|v| v.as_array()) {
+        args = vec!["sc".to_string()];
+        for x in a {
+            args.push(x.as_str().unwrap_or("").to_string());
+        }
+    }
     let re = x::scripting::verif_expand_args(line, &args);
     let li = x::parser_line::parse_line(line);
     json!({"rendered": re, "whole_tokens": toks(&li.tokens), "direct": seg_tokens(line), "via_script": seg_tokens(&re)})
@@ -323,7 +329,7 @@ fn main() {
                 Ok(v) => v,
                 Err(e) => json!({"panic": panic_msg(e)}),
             },
-            "rerender" => match catch_unwind(AssertUnwindSafe(|| rerender(&line))) {
+            "rerender" => match catch_unwind(AssertUnwindSafe(|| rerender(&line, &case))) {
                 Ok(v) => v,
                 Err(e) => json!({"panic": panic_msg(e)}),
             },
